@@ -102,11 +102,11 @@ Definition corr_ok5 (c : case5) : bool :=
     is in no class, whatever the coarser AST predicates say (cls_stale_recipe flags 100 enumerated ASTs on
     which the reader is right) *)
 Definition units_test (a : chain) : bool := units_ok (fun _ => None) a.
+(** stale_recipe (class 10) is repaired in the code: the slice of the recipe table starts at the closing anchor's entry *)
 Definition class_C05 (braces : bool) (a : chain) : nat :=
   if units_test a then 0%nat
   else if cls_ring_in_unit a then 4%nat
   else if cls_nested_in_unit a then 5%nat
-  else if cls_stale_recipe a then 10%nat
   else 0%nat.
 (** shorthand against longhand, both as read by the implementation; the numbering must be the
     same unless a branch is multiplied *)
